@@ -28,10 +28,17 @@ cp "$DEMO" "$DEST/"
 go test -vet=off -count=1 -run "$RUN" "./$DEST/" 2>&1 | grep -v "^\s*$" | tail -8 | cut -c1-300 | tee -a "$LOG"
 rm -f "$DEST/$(basename "$DEMO")"
 cp "$DEMO" "$OUT/"
-cd /verif
+# the checks run from a snapshot of the committed /verif (the working tree may be mid-edit)
+SNAP=/tmp/vsnap_$NAME
+rm -rf "$SNAP"; mkdir -p "$SNAP"
+git -C /verif archive HEAD | tar -x -C "$SNAP" --exclude=seeded --exclude=evidence
+echo "== checks from /verif commit $(git -C /verif rev-parse --short HEAD)" | tee -a "$LOG"
+cd "$SNAP"
 for c in $CHECKS; do
   echo "== our check $c quick against the changed tree" | tee -a "$LOG"
-  VERIF_REPO_DIR="$WT" ./check $c quick 2>&1 | grep -v "^WARNING" | grep "VIOLATION\|sig=\|seed=\|KNOWN\|BROKEN\|BUILD" | cut -c1-260 | head -12 | tee -a "$LOG"
+  VERIF_REPO_DIR="$WT" ./check $c quick 2>&1 | sed "s#$SNAP#/verif#g" | grep -v "^WARNING" | grep "VIOLATION\|sig=\|seed=\|KNOWN\|BROKEN\|BUILD" | cut -c1-260 | head -12 | tee -a "$LOG"
 done
+cd /verif
+rm -rf "$SNAP"
 git -C /repo worktree remove --force "$WT"
 echo "== done $NAME" | tee -a "$LOG"
